@@ -114,7 +114,13 @@ func (o *Obligation) solve(opts solveOpts, stats *solveStats) {
 	defer cancel()
 	want := "unsat"
 	if o.Expect == "sat" {
-		want = "sat"
+		// vacuity canary: only a proof of unsatisfiability is bad news; do not spend time looking for a model
+		vq := opts
+		vq.timeoutS = 3
+		st, _, secs := runSolver(ctx, solvers[0], file, vq)
+		stats.add(solvers[0].name, secs)
+		o.Status, o.Solver, o.Seconds = st, solvers[0].name, secs
+		return
 	}
 	// first the cheap attempt with one solver, then race the rest
 	order := []int{0, 1, 2}
